@@ -45,6 +45,7 @@ structure AttachSpec (h : Heap) (c v w : Addr) (h' : Heap) : Prop where
     keeps its kind and a sub-collection of its children -/
 structure ShrinkSpec (h h' : Heap) : Prop where
   size_eq : h'.size = h.size
+  leaves : ∀ a s, h.get? a = some (.leaf s) → h'.get? a = some (.leaf s)
   cells : ∀ a cell', h'.get? a = some cell' → ∃ cell, h.get? a = some cell ∧
     (∀ k ∈ cell'.kids, k ∈ cell.kids) ∧ cell'.isLeaf = cell.isLeaf ∧ cell'.isList = cell.isList ∧
     (∀ kvs kvs', cell = .cont kvs → cell' = .cont kvs' → AMap.Sorted kvs → AMap.Sorted kvs')
